@@ -147,6 +147,9 @@ def run_property(prop, tier='quick', facts_dir=None, quiet=False, write=True):
                 ASSUMPTIONS, time.time() - t0, 0, {'check_error': tb[-1500:], **info})
         return 2
 
+    if os.environ.get('RIPCHECK_LIST') == '1':
+        for o in ctx.obs:
+            say('  [%s] %s  (%s:%s) %s' % ('ok' if o.ok else 'FAIL', o.key, o.file, o.line, o.msg[:160]))
     known = load_known()
     known_keys = {k['key']: k for k in known.get('known', []) if k.get('property') == prop}
     failed = [o for o in ctx.obs if not o.ok]
